@@ -47,10 +47,10 @@ def run(ck):
                                           coverage=False), 60))
     else:
         runs.append(("pairs", dm.model_run(ck, "histories<=2:all", 2, seeds=(0, 1, 2), orders=(1, 2, 3),
-                                           relabels=(1, 2, 3, 4, 5, 6), problems=(1, 2), coverage=True), 700))
-        runs.append(("len3", dm.model_run(ck, "histories<=3", 3, relabels=(1, 2, 3), coverage=True), 700))
+                                           relabels=(1, 2, 3, 4, 5, 6), problems=(1, 2), coverage=True), 280))
+        runs.append(("len3", dm.model_run(ck, "histories<=3", 3, relabels=(1, 2, 3), coverage=True), 280))
         runs.append(("len4", dm.model_run(ck, "histories<=4:one-order", 4, orders=(1,), relabels=(1,),
-                                          coverage=True), 700))
+                                          coverage=True), 280))
     for d, formulas in dm.DEVS.items():
         if quick:
             dm.model_run(ck, "deviation:" + d, 2, relabels=(1, 2), orders=(1,), dev=[d], export=False,
